@@ -420,6 +420,7 @@ func (f *baseJsFuncObject) __call(args []Value, newTarget, this Value) (Value, *
 	if vm.prg != nil {
 		vm.pushCtx()
 		vm.callStack = append(vm.callStack, context{pc: -2}) // extra frame so that run() halts after ret
+		vm.vt("CtxAdj", "halt")
 		needPop = true
 	} else {
 		vm.pc = -2
@@ -792,8 +793,10 @@ func (g *generator) enterNextFinallyFrame() (canContinue bool, ex *Exception) {
 			tf.catchPos = tryPanicMarker
 			tf.finallyPos = -1
 			tf.finallyRet = -2 // -1 would cause it to continue after leaveFinally
+			vm.vt("GenFin", "enter")
 			return true, nil
 		}
+		vm.vt("GenFin", "pop")
 		vm.popTryFrame()
 	}
 	return
@@ -856,6 +859,7 @@ func (g *generator) step() (res Value, resultType resultType, ex *Exception) {
 				}
 				vm.sp = vm.sb - 1
 				vm.callStack = vm.callStack[:len(vm.callStack)-1]
+				vm.vt("CtxAdj", "genret")
 
 				return
 			}
@@ -879,6 +883,7 @@ func (g *generator) step() (res Value, resultType resultType, ex *Exception) {
 		vm.suspend(&g.ctx, g.tryStackLen, g.iterStackLen, g.refStackLen)
 		vm.sp = vm.sb - 1
 		vm.callStack = vm.callStack[:len(vm.callStack)-1] // remove the frame with pc == -2, as ret would do
+		vm.vt("CtxAdj", "yield")
 	}
 	return
 }
@@ -887,6 +892,7 @@ func (g *generator) enterNext() {
 	g.vm.pushCtx()
 	g.vm.pushTryFrame(tryPanicMarker, -1)
 	g.vm.callStack = append(g.vm.callStack, context{pc: -2}) // extra frame so that vm.run() halts after ret
+	g.vm.vt("CtxAdj", "halt")
 	g.storeLengths()
 	g.vm.resume(&g.ctx)
 }
@@ -1107,6 +1113,7 @@ func (g *generatorObject) _return(v Value) Value {
 		}
 
 		vm.callStack = vm.callStack[:len(vm.callStack)-1]
+		vm.vt("CtxAdj", "genret")
 		vm.sp = vm.sb - 1
 		vm.popCtx()
 
